@@ -324,49 +324,169 @@ theorem resolve_frame {b b' : Builder} {n : Nat} (h : resolve b = .ok (b', n)) :
 theorem toExcept_ok {α : Type} {s : Stage} {r : Res α} {a : α} : r.toExcept s = .ok a ↔ r = .ok a := by
   cases r <;> simp [Res.toExcept]
 
-theorem prepare_ok_iff {v : Variant} {x : Ext} {inp : Input} {p : Builder × Nat} :
-    prepare v x inp = .ok p ↔
-      ∃ c st, readConnOpt v inp.conn = .ok c ∧ readLex v x inp = .ok st ∧
-        resolveOpt inp.doResolve (mkBuilder inp c st) = .ok p := by
-  unfold prepare
-  cases hc : readConnOpt v inp.conn with
-  | err k l => simp [Res.toExcept]
-  | panic w => simp [Res.toExcept]
-  | ok c =>
-    cases hl : readLex v x inp with
-    | err k l => simp [Res.toExcept]
-    | panic w => simp [Res.toExcept]
-    | ok st =>
-      simp only [Res.toExcept, Res.ok.injEq, exists_and_left, exists_eq_left']
-      exact toExcept_ok
+/-! ## the calls before `compile`: what each of them leaves alone -/
 
-theorem resolveOpt_frame {r : Bool} {b b' : Builder} {n : Nat} (h : resolveOpt r b = .ok (b', n)) :
-    b'.conn = b.conn ∧ b'.maxLeft = b.maxLeft ∧ b'.maxRight = b.maxRight ∧ b'.base = b.base ∧
-    b'.lex.pos = b.lex.pos ∧ b'.lex.unresolved = b.lex.unresolved := by
-  unfold resolveOpt at h
+theorem readLex_frame {v : Variant} {x : Ext} {b b' : Builder} {recs : List (Nat × List Str)} {ce : Option Nat}
+    (h : readLex v x b recs ce = .ok b') :
+    b'.conn = b.conn ∧ b'.maxLeft = b.maxLeft ∧ b'.maxRight = b.maxRight ∧ b'.base = b.base := by
+  unfold readLex at h
   split at h
-  · have := resolve_frame h; simp [this]
-  · injection h with h; injection h with h1 h2; subst h1; simp
+  · split at h
+    · simp at h
+    · injection h with h; subst h; simp
+  · simp at h
+  · simp at h
 
-/-- the builder `prepare` hands to `compile`: the matrix that was read and the sizes the ids are
-validated against -/
+theorem runOp_conn {v : Variant} {x : Ext} {s s' : Builder × Nat} {lines : List (Option Str)}
+    (h : runOp v x s (.conn lines) = .ok s') :
+    ∃ c, readConn v lines = .ok c ∧ s' = (setConn s.1 c, s.2) := by
+  simp only [runOp] at h
+  cases hc : readConn v lines with
+  | err k l => simp [hc, Res.toExcept] at h
+  | panic w => simp [hc, Res.toExcept] at h
+  | ok c =>
+    simp only [hc, Res.toExcept, Except.ok.injEq] at h
+    exact ⟨c, rfl, h.symm⟩
+
+theorem runOp_lex {v : Variant} {x : Ext} {s s' : Builder × Nat} {recs : List (Nat × List Str)} {ce : Option Nat}
+    (h : runOp v x s (.lex recs ce) = .ok s') :
+    ∃ b, readLex v x s.1 recs ce = .ok b ∧ s' = (b, s.2) := by
+  simp only [runOp] at h
+  cases hc : readLex v x s.1 recs ce with
+  | err k l => simp [hc, Res.toExcept] at h
+  | panic w => simp [hc, Res.toExcept] at h
+  | ok b =>
+    simp only [hc, Res.toExcept, Except.ok.injEq] at h
+    exact ⟨b, rfl, h.symm⟩
+
+theorem runOp_resolve {v : Variant} {x : Ext} {s s' : Builder × Nat}
+    (h : runOp v x s .resolve = .ok s') :
+    ∃ b n, resolve s.1 = .ok (b, n) ∧ s' = (b, s.2 + n) := by
+  simp only [runOp] at h
+  cases hc : resolve s.1 with
+  | err k l => simp [hc, Res.toExcept] at h
+  | panic w => simp [hc, Res.toExcept] at h
+  | ok p =>
+    obtain ⟨b, n⟩ := p
+    simp only [hc, Res.toExcept, Except.ok.injEq] at h
+    exact ⟨b, n, rfl, h.symm⟩
+
+theorem runOps_cons {v : Variant} {x : Ext} {s s'' : Builder × Nat} {op : Op} {ops : List Op}
+    (h : runOps v x s (op :: ops) = .ok s'') :
+    ∃ s', runOp v x s op = .ok s' ∧ runOps v x s' ops = .ok s'' := by
+  simp only [runOps] at h
+  cases ho : runOp v x s op with
+  | error f => simp [ho] at h
+  | ok s' => simp only [ho] at h; exact ⟨s', rfl, h⟩
+
+/-- the ids are validated against the sizes of the matrix that is written -/
+def Sized (b : Builder) : Prop := b.maxLeft = b.conn.nl ∧ b.maxRight = b.conn.nr
+
+/-- no matrix was read: the matrix is the empty one, the sizes are those the builder started with -/
+def Untouched (b : Builder) : Prop :=
+  b.conn = Conn.empty ∧ b.maxLeft = b.base.maxLeft ∧ b.maxRight = b.base.maxRight
+
+def Op.isConn : Op → Bool
+  | .conn _ => true
+  | _ => false
+
+theorem runOp_base {v : Variant} {x : Ext} {s s' : Builder × Nat} {op : Op} (h : runOp v x s op = .ok s') :
+    s'.1.base = s.1.base := by
+  cases op with
+  | conn lines => obtain ⟨c, _, rfl⟩ := runOp_conn h; rfl
+  | lex recs ce => obtain ⟨b, hb, rfl⟩ := runOp_lex h; exact (readLex_frame hb).2.2.2
+  | resolve => obtain ⟨b, n, hb, rfl⟩ := runOp_resolve h; exact (resolve_frame hb).2.2.2.1
+
+theorem runOp_sized {v : Variant} {x : Ext} {s s' : Builder × Nat} {op : Op} (h : runOp v x s op = .ok s')
+    (hs : op.isConn = true ∨ Sized s.1) : Sized s'.1 := by
+  cases op with
+  | conn lines => obtain ⟨c, _, rfl⟩ := runOp_conn h; exact ⟨rfl, rfl⟩
+  | lex recs ce =>
+    obtain ⟨b, hb, rfl⟩ := runOp_lex h
+    obtain ⟨f1, f2, f3, _⟩ := readLex_frame hb
+    rcases hs with hs | hs
+    · cases hs
+    · unfold Sized at hs ⊢; simp only [f1, f2, f3]; exact hs
+  | resolve =>
+    obtain ⟨b, n, hb, rfl⟩ := runOp_resolve h
+    obtain ⟨f1, f2, f3, _⟩ := resolve_frame hb
+    rcases hs with hs | hs
+    · cases hs
+    · unfold Sized at hs ⊢; simp only [f1, f2, f3]; exact hs
+
+theorem runOp_untouched {v : Variant} {x : Ext} {s s' : Builder × Nat} {op : Op} (h : runOp v x s op = .ok s')
+    (hop : op.isConn = false) (hs : Untouched s.1) : Untouched s'.1 := by
+  cases op with
+  | conn lines => cases hop
+  | lex recs ce =>
+    obtain ⟨b, hb, rfl⟩ := runOp_lex h
+    obtain ⟨f1, f2, f3, f4⟩ := readLex_frame hb
+    unfold Untouched at hs ⊢; simp only [f1, f2, f3, f4]; exact hs
+  | resolve =>
+    obtain ⟨b, n, hb, rfl⟩ := runOp_resolve h
+    obtain ⟨f1, f2, f3, f4, _⟩ := resolve_frame hb
+    unfold Untouched at hs ⊢; simp only [f1, f2, f3, f4]; exact hs
+
+theorem runOps_base {v : Variant} {x : Ext} {s s' : Builder × Nat} {ops : List Op}
+    (h : runOps v x s ops = .ok s') : s'.1.base = s.1.base := by
+  induction ops generalizing s with
+  | nil => simp only [runOps, Except.ok.injEq] at h; subst h; rfl
+  | cons op ops ih =>
+    obtain ⟨s1, h1, h2⟩ := runOps_cons h
+    rw [ih h2, runOp_base h1]
+
+/-- once a matrix was read (or if the builder started that way) the sizes are those of the
+matrix: every later `read_conn` replaces both together -/
+theorem runOps_sized {v : Variant} {x : Ext} {s s' : Builder × Nat} {ops : List Op}
+    (h : runOps v x s ops = .ok s') (hs : (∃ op ∈ ops, op.isConn = true) ∨ Sized s.1) : Sized s'.1 := by
+  induction ops generalizing s with
+  | nil =>
+    simp only [runOps, Except.ok.injEq] at h; subst h
+    rcases hs with ⟨op, hm, _⟩ | hs
+    · cases hm
+    · exact hs
+  | cons op ops ih =>
+    obtain ⟨s1, h1, h2⟩ := runOps_cons h
+    cases hc : op.isConn with
+    | true => exact ih h2 (Or.inr (runOp_sized h1 (Or.inl hc)))
+    | false =>
+      rcases hs with ⟨op', hm, hop'⟩ | hs
+      · rcases List.mem_cons.1 hm with rfl | hm'
+        · rw [hc] at hop'; cases hop'
+        · exact ih h2 (Or.inl ⟨op', hm', hop'⟩)
+      · exact ih h2 (Or.inr (runOp_sized h1 (Or.inr hs)))
+
+theorem runOps_untouched {v : Variant} {x : Ext} {s s' : Builder × Nat} {ops : List Op}
+    (h : runOps v x s ops = .ok s') (hops : ∀ op ∈ ops, op.isConn = false) (hs : Untouched s.1) :
+    Untouched s'.1 := by
+  induction ops generalizing s with
+  | nil => simp only [runOps, Except.ok.injEq] at h; subst h; exact hs
+  | cons op ops ih =>
+    obtain ⟨s1, h1, h2⟩ := runOps_cons h
+    exact ih h2 (fun op' hm => hops op' (List.mem_cons_of_mem _ hm))
+      (runOp_untouched h1 (hops op List.mem_cons_self) hs)
+
+/-- the builder `prepare` hands to `compile`: the matrix that was read last and the sizes the ids
+are validated against -/
 theorem prepare_conn {v : Variant} {x : Ext} {inp : Input} {b : Builder} {cnt : Nat}
     (h : prepare v x inp = .ok (b, cnt)) :
     b.base = inp.base ∧
-    (∀ lines, inp.conn = some lines → readConn v lines = .ok b.conn ∧ b.maxLeft = b.conn.nl ∧ b.maxRight = b.conn.nr) ∧
-    (inp.conn = none → b.conn = Conn.empty ∧ b.maxLeft = inp.base.maxLeft ∧ b.maxRight = inp.base.maxRight) := by
-  obtain ⟨c, st, hc, _, hr⟩ := prepare_ok_iff.1 h
-  obtain ⟨f1, f2, f3, f4, _, _⟩ := resolveOpt_frame hr
-  simp only [mkBuilder] at f1 f2 f3 f4
-  refine ⟨f4, ?_, ?_⟩
-  · intro lines hl
-    simp only [hl, readConnOpt] at hc
-    simp only [hl, Option.isSome_some, ↓reduceIte] at f2 f3
-    rw [f1]; exact ⟨hc, f2, f3⟩
+    ((∃ lines, Op.conn lines ∈ inp.ops) → b.maxLeft = b.conn.nl ∧ b.maxRight = b.conn.nr) ∧
+    ((∀ lines, Op.conn lines ∉ inp.ops) →
+      b.conn = Conn.empty ∧ b.maxLeft = inp.base.maxLeft ∧ b.maxRight = inp.base.maxRight) := by
+  unfold prepare at h
+  have hb := runOps_base h
+  refine ⟨hb, ?_, ?_⟩
+  · rintro ⟨lines, hl⟩
+    exact runOps_sized h (Or.inl ⟨_, hl, rfl⟩)
   · intro hn
-    simp only [hn, readConnOpt] at hc
-    simp only [hn, Option.isSome_none, Bool.false_eq_true, ↓reduceIte] at f2 f3
-    injection hc with hc
-    rw [f1, ← hc]; exact ⟨rfl, f2, f3⟩
+    have hu := runOps_untouched h (fun op hm => by
+      cases op with
+      | conn lines => exact absurd hm (hn lines)
+      | lex recs ce => rfl
+      | resolve => rfl) ⟨rfl, rfl, rfl⟩
+    unfold Untouched at hu
+    rw [hb] at hu
+    exact hu
 
 end Build
